@@ -235,6 +235,11 @@ pub struct Interpreter {
     /// Uses ModuleExport to distinguish direct exports (with live bindings) from re-exports
     pub exports: FxHashMap<JsString, ModuleExport>,
 
+    /// Keeps the exported values of the running module alive until its namespace object is
+    /// built: an export without a binding in the module environment (`export default <expr>`,
+    /// an anonymous default function or class) is referenced from `exports` only.
+    pub(crate) exports_guard: Guard<JsObject>,
+
     /// Call stack for stack traces
     pub call_stack: Vec<StackFrame>,
 
@@ -369,6 +374,7 @@ impl Interpreter {
     pub fn new() -> Self {
         let heap: Heap<JsObject> = Heap::new();
         let root_guard = heap.create_guard();
+        let exports_guard = heap.create_guard();
 
         // Create prototypes (all rooted)
         let object_prototype = root_guard.alloc();
@@ -461,6 +467,7 @@ impl Interpreter {
             range_error_prototype,
             syntax_error_prototype,
             exports: FxHashMap::default(),
+            exports_guard,
             call_stack: Vec::new(),
             next_generator_id: 1,
             next_symbol_id: symbol_counter,
@@ -1190,6 +1197,7 @@ impl Interpreter {
         self.env_guards.clear();
         self.call_stack.clear();
         self.exports.clear();
+        self.exports_guard.clear();
         self.pending_program = None;
         self.pending_module_sources.clear();
         self.pending_orders.clear();
